@@ -11,8 +11,11 @@ from vlib import common
 
 GO = dict(module="extras", pkg="realm", pkgname="realm",
           files={"zz_verif_c20_test.go": "c20/c20_test.go"}, run="TestVerifC20")
+# socket ownership in the server runtime that owns the realm socket: harness injected into app/cmd (module app)
+GO_RT = dict(module="app", pkg="cmd", pkgname="cmd",
+             files={"zz_verif_c20rt_test.go": "c20/c20_runtime_test.go"}, run="TestVerifC20Runtime")
 PARAMS_NAME = "ParamsC20"
-HEADER = ("From Hy Require Import lib.Harness model.C20_Punch corr.C20_Corr.\nFrom Coq Require Import ZArith.\n"
+HEADER = ("From Hy Require Import lib.Harness model.C20_Punch model.C20_Owner corr.C20_Corr.\nFrom Coq Require Import ZArith.\n"
           "Local Open Scope N_scope.\n")
 RULE = ("seeded generator. Codec: EncodePunchPacket on valid/invalid types and metadata (random salt/padding read back from the "
         "output and fed to the model); DecodePunchPacket on packets built independently with hashlib: every padding boundary "
@@ -32,6 +35,19 @@ RULE = ("seeded generator. Codec: EncodePunchPacket on valid/invalid types and m
         "with the puncher's lifetime context (the one given to NewServerPuncher; the Respond context is not derived from it) cancelled "
         "before the call, right after registration, between datagrams, or after the event; after every return both registries are read "
         "directly (PunchPacketConn.attempts = exactly the calls in progress) and late packets + marker + re-registration follow. Thorough adds concurrent add/remove while reading under -race, linearised and replayed through the model. "
+        "Runtime stage (harness injected into app/cmd, module app): the code that OWNS the realm socket - startRealmServerRuntime (startup STUN discovery on the "
+        "socket itself, registration), then, with a QUIC-side reader looping on PunchPacketConn.ReadFrom as the QUIC server does once fillRealmConn has handed "
+        "the conn over, the session goroutines and registerWithBackoff - driven over a real UDP socket on 127.0.0.1:0 (wrapped only to LOG, from the call stack, "
+        "who calls ReadFrom / SetReadDeadline on it), scripted STUN servers (answer / answer first / duplicate / wrong transaction first / never answer; one or "
+        "two servers) and an httptest rendezvous server (register ok / 500 with back-off / 400 for good; heartbeat ok / 404 / 401 / 500 until the TTL lapses; events "
+        "stream held / 404 / 401 / dropped / punch event with a fresh or a stale STUN cache): histories startup -> serving -> session loss -> re-register, "
+        "repeated, while a sender injects a stream of unique datagrams (QUIC long/short header 20..1200 bytes, near-STUN, punch packets of an attempt nobody "
+        "registered, random; STUN binding responses and punch packets of a registered attempt in between) in bursts placed INSIDE every STUN round trip and every "
+        "rendezvous request, plus a trickle.  Verdict on the implementation alone: what the QUIC-side ReadFrom returned is byte for byte, in order, exactly the "
+        "non-STUN non-punch datagrams sent while it served (none consumed elsewhere, none twice), nothing that had to be withheld came out, ReadFrom never failed "
+        "(a deadline armed by another party on the shared socket makes it fail), and the end marker arrives.  The raw-socket log is replayed through the Coq "
+        "socket-ownership LTS (model/C20_Owner.v): every reader must be one the model's transcription of server.go knows in that phase, and the model must "
+        "deliver the same list to QUIC.  "
         "Every Go result is compared (a) with the Coq model inside the kernel and (b) with an independent python/hashlib reference. "
         "Non-trivial = a packet that decodes, a near miss (damaged/cross-attempt/window boundary), or a history in which at least one "
         "datagram is withheld and one is passed. Distinct = distinct JSON case.")
@@ -42,11 +58,17 @@ ASSUMPTIONS = [
     "(explicit hypothesis `mask_collision_free` of C20_decode_iff_same_meta / C20_salt_flip; everything else is unconditional)",
     "crypto/sha256 computes FIPS 180-4 SHA-256 (lib/Sha256.v is checked against the NIST vectors and, through the codec cases, against crypto/sha256 itself)",
     "the attempt registry is accessed only under PunchPacketConn.mu, so Add/Remove and the registry scan of one datagram are atomic (the LTS steps)",
+    "socket ownership: the kernel hands every datagram of a UDP socket to exactly one caller of ReadFrom, in arrival order, and a socket has one read deadline "
+    "shared by all its readers (the socket of model/C20_Owner.v); the readers of the realm socket are the QUIC server (through the conn fillRealmConn returns) "
+    "and the discoveries started at the three sites of app/cmd/server.go (startRealmServerRuntime, registerWithBackoff, connectAddrs) - the runtime stage logs "
+    "every actual caller from the call stack and fails the correspondence on any other",
 ]
 TRUSTED = ["modelled rather than verified: extras/realm/punch.go, punch_conn.go, server_punch.go, addrToAddrPort (hand transcription in coq/model/C20_Punch.v); "
            "stun.go:204-244 and pion/stun are an oracle; candidatePunchAddrs (punch_engine.go) enters Respond's model only through the number of "
            "candidates it returns (read from the run), the select loop of Respond only through which case returned",
-           "python reference codec (hashlib) used for the additional independent verdict"]
+           "python reference codec (hashlib) used for the additional independent verdict",
+           "modelled rather than verified: which discovery each site of app/cmd/server.go runs (site_how / site_phase in coq/model/C20_Owner.v) and the receive loops of "
+           "realm.Discover / DiscoverWithDemux as far as the socket's read side is concerned; tied by the runtime stage's raw-socket log on every run"]
 PER_SHARD = 160
 EXTRA_TARGETS = ["corr/C20_Corr.vo"]
 
@@ -743,6 +765,163 @@ def gen_respond_exits(rng, nhist):
     return cases
 
 
+
+# ---------------------------------------------------------------- runtime stage (app/cmd): who reads the realm socket
+
+RT_LOSSES = ["hb-gone", "hb-unauth", "ev-gone", "ev-unauth", "ev-drop-gone", "hb-fail-ttl", "ev-fail-ttl"]
+
+
+def rt_dgrams(rng, meta, n, base=0):
+    """the stream the sender injects: (bytes, kind); every datagram is unique (a counter in its last / salt / txid bytes)"""
+    foreign = new_meta(rng)
+    out = []
+    for i in range(base, base + n):
+        ctr = struct.pack(">I", i)
+        r = rng.random()
+        if r < 0.64:
+            ln = rng.choice([20, 21, 22, 24, 25, 27, 30, 31, 32] * 5 + [33, 34, 40, 48, 64, 90] * 2 + [300, 1200])
+            b = bytearray(quic_like(rng, ln))
+            b[-4:] = ctr
+            out.append((bytes(b), "quic"))
+        elif r < 0.72:
+            tx = rnd(rng, 8) + ctr
+            ip4, port = rnd(rng, 4), rng.randrange(1, 65536)
+            v = rng.choice([
+                stun_msg(0x0001, tx, []),                                                         # binding request
+                stun_msg(0x0111, tx, [(0x0009, b"\x00\x00\x04\x01bad!")]),                       # binding error
+                stun_msg(0x0101, tx, []),                                                         # success without an address
+                stun_msg(0x0101, tx, [(0x0020, xor_mapped(ip4, port, tx))], cookie=0x2112A443),   # wrong cookie
+                stun_msg(0x0101, tx, [(0x0020, xor_mapped(ip4, port, tx))], length=64),           # declared length > datagram
+                stun_msg(0x0101, tx, [(0x0020, xor_mapped(ip4, 0, tx))]),                         # mapped port 0
+                stun_msg(0x0101, tx, [(0x0020, xor_mapped(ip4, port, tx))])[:24],                 # truncated
+            ])
+            out.append((v, "near-stun"))
+        elif r < 0.80:
+            n_, k_ = foreign
+            out.append((py_encode(rng.choice([1, 2]), bytes.fromhex(n_), bytes.fromhex(k_), rnd(rng, 4) + ctr,
+                                  rnd(rng, rng.choice([0, 0, 1, 7, 20]))), "punch-foreign"))
+        elif r < 0.87:
+            n_, k_ = meta
+            out.append((py_encode(rng.choice([1, 2]), bytes.fromhex(n_), bytes.fromhex(k_), rnd(rng, 4) + ctr,
+                                  rnd(rng, rng.choice([0, 0, 1, 7, 20]))), "punch"))
+        elif r < 0.94:
+            tx = rnd(rng, 8) + ctr
+            ip4, port = rnd(rng, 4), rng.randrange(1, 65536)
+            out.append((rng.choice([stun_msg(0x0101, tx, [(0x0020, xor_mapped(ip4, port, tx))]),
+                                    stun_msg(0x0101, tx, [(0x0001, mapped(ip4, port))])]), "stun"))
+        else:
+            ln = rng.choice([5, 8, 16, 29, 33, 50])
+            b = bytearray(rnd(rng, ln))
+            b[0] = rng.choice([0x16, 0x17, 0x80, 0xFF, 0x02, 0x20])
+            b[-4:] = ctr
+            out.append((bytes(b), "random"))
+    return out
+
+
+def rt_case(rng, name, losses, stun_modes=None, reg_fail=(), fatal=False, nstun=1, punch=None, ndg=None, **kw):
+    """one history of the realm server runtime.  losses: how each session but the last is lost; stun_modes: what the
+    STUN server(s) do on each refresh after startup; reg_fail: re-registrations (1-based) whose first Register fails
+    (back-off, second STUN refresh); fatal: the last re-registration is rejected for good (400); punch: session index
+    in which a punch event arrives over the events stream ("expire": the cached STUN result is stale by then)."""
+    meta = new_meta(rng)
+    rtmeta = new_meta(rng)
+    c = {"k": "rt", "name": name, "stun_tmo_ms": rng.choice([350, 450, 600]), "hb_ms": rng.choice([25, 30, 40]), "ttl": 30,
+         "punch_ms": 250, "meta": list(meta), "rtmeta": list(rtmeta), "trickle": rng.choice([30, 45, 60]),
+         "trickle_ms": rng.choice([10, 15, 25]), "b_reg": rng.choice([2, 4]), "b_hb": rng.choice([0, 0, 1]), "b_ev": rng.choice([1, 2, 3]),
+         "final": rng.choice([6, 10, 14]), "tail_hb": rng.choice([2, 3, 4])}
+    nsess = len(losses) + 1
+    hb, ev, reg = [], [], ["ok"]
+    for si, how in enumerate(losses):
+        pre = ["ok"] * rng.choice([0, 1, 2, 3])
+        evs = []
+        if punch is not None and punch[0] == si:
+            # an events-based loss comes with the NEXT events request: the stream of the punch event drops after a while
+            evs.append({"mode": "punch", "expire": bool(punch[1]), "hold_ms": 600 if how.startswith("ev-") else 0})
+            pre += ["ok"] * 12                        # the punch response needs its time
+        if how == "hb-gone":
+            hb.append(pre + ["gone"])
+        elif how == "hb-unauth":
+            hb.append(pre + ["unauth"])
+        elif how == "hb-fail-ttl":
+            c["ttl"] = 1
+            hb.append(pre + ["fail"] * 400)
+        else:
+            hb.append(pre + ["ok"] * 400)
+        if how == "ev-gone":
+            evs += [{"mode": "gone"}]
+        elif how == "ev-unauth":
+            evs += [{"mode": "unauth"}]
+        elif how == "ev-drop-gone":
+            evs += [{"mode": "drop"}] * rng.choice([1, 2]) + [{"mode": "gone"}]
+        elif how == "ev-fail-ttl":
+            c["ttl"] = 1
+            evs += [{"mode": "fail"}] * 6
+        ev.append(evs)
+        # the re-registration that follows
+        k = si + 1
+        last = k == len(losses)
+        if k in reg_fail:
+            reg.append("fail")
+        reg.append("fatal" if (fatal and last) else "ok")
+    evs = []
+    if punch is not None and punch[0] == nsess - 1:
+        evs.append({"mode": "punch", "expire": bool(punch[1])})
+        c["tail_hb"] = 22
+    ev.append(evs)
+    hb.append([])
+    nref = len(losses) + len([k for k in reg_fail if k <= len(losses)]) + (1 if punch and punch[1] else 0)
+    stun_modes = list(stun_modes or [])
+    while len(stun_modes) < nref + 1:
+        stun_modes.append(rng.choice(["ok", "ok", "ok", "dupe", "wrongtx", "fast", "drop"]))
+    servers = []
+    for sv in range(nstun):
+        steps = [{"mode": "ok", "burst": 0, "map": 0}]           # the startup discovery
+        for ri, m in enumerate(stun_modes):
+            if nstun > 1 and sv > 0:
+                m = kw.get("second_server", "drop")
+            steps.append({"mode": m, "burst": rng.choice([14, 18, 24, 30]) if sv == 0 else rng.choice([0, 6]),
+                          "map": rng.choice([0, 0, 1, 2]) + sv * 7})
+        servers.append(steps)
+    c.update({"stun": servers, "reg": reg, "hb": hb, "ev": ev, "end_regs": nsess - (1 if fatal else 0)})
+    c.update({k_: v for k_, v in kw.items() if k_ != "second_server"})
+    n = ndg or (150 + 70 * len(losses) + (120 if "hb-fail-ttl" in losses or "ev-fail-ttl" in losses or reg_fail else 0))
+    dg = rt_dgrams(rng, meta, n)
+    c["dg"] = [{"hex": b.hex(), "kind": k_} for b, k_ in dg]
+    c["early"] = [(b"\x40early-" + rnd(rng, rng.choice([4, 20, 40])) + struct.pack(">I", i)).hex() for i in range(rng.choice([0, 3, 6]))]
+    c["rtpunch"] = [py_encode(1, bytes.fromhex(rtmeta[0]), bytes.fromhex(rtmeta[1]), rnd(rng, 8), rnd(rng, rng.choice([0, 3]))).hex()
+                    for _ in range(3)] if punch is not None else []
+    return c
+
+
+def gen_rt(rng, tier):
+    cs = [
+        rt_case(rng, "control", []),
+        rt_case(rng, "hb-gone", ["hb-gone"], ["ok"]),
+        rt_case(rng, "hb-unauth", ["hb-unauth"], ["dupe"]),
+        rt_case(rng, "ev-gone", ["ev-gone"], ["ok"]),
+        rt_case(rng, "ev-drop-gone", ["ev-drop-gone"], ["wrongtx"]),
+        rt_case(rng, "stun-unanswered", [rng.choice(["hb-gone", "ev-gone"])], ["drop"]),
+        rt_case(rng, "two-stun-one-dead", ["hb-gone"], ["ok"], nstun=2),
+        rt_case(rng, "repeated", [rng.choice(RT_LOSSES[:5]) for _ in range(3)]),
+        rt_case(rng, "register-backoff", ["hb-gone"], ["ok", "ok"], reg_fail=(1,)),
+        rt_case(rng, "register-rejected", ["ev-gone"], ["ok"], fatal=True),
+        rt_case(rng, "hb-fail-ttl", ["hb-fail-ttl"], ["ok"]),
+        rt_case(rng, "punch-stale-cache", [], ["ok"], punch=(0, True)),
+        rt_case(rng, "punch-then-loss", ["hb-gone"], ["ok", "ok"], punch=(0, True)),
+        rt_case(rng, "punch-fresh-cache", ["ev-drop-gone"], ["fast"], punch=(1, False)),
+    ]
+    extra = 3 if tier == "quick" else 30
+    for _ in range(extra):
+        nl = rng.choice([1, 1, 2, 2, 3])
+        losses = [rng.choice(RT_LOSSES[:5] + ["hb-fail-ttl"] * (1 if tier != "quick" else 0) + ["hb-gone"]) for _ in range(nl)]
+        cs.append(rt_case(rng, "random", losses, nstun=rng.choice([1, 1, 2]),
+                          reg_fail=((rng.randint(1, nl),) if rng.random() < 0.2 else ()),
+                          fatal=rng.random() < 0.15,
+                          punch=((rng.randrange(nl + 1), rng.random() < 0.7) if rng.random() < 0.3 else None),
+                          second_server=rng.choice(["drop", "ok"])))
+    return cs
+
+
 def gen_conc(rng, n):
     cases = []
     for _ in range(n):
@@ -867,6 +1046,109 @@ def to_coq(c, o):
                 ops.append("SOpREnd %s %s" % ("true" if oo["res"] == "noevent" else "false",
                                               "(Some %s)" % ev_term(oo["ev"]) if oo["res"] == "ok" else "None"))
         return "%s (%d)%%Z %s" % ("CDemux" if k == "demux" else "CServer", c["cap"], lst(ops))
+    if k == "rt":
+        return rt_to_coq(c, o)
+    return None
+
+
+RT_SITE = {"quic": "OsQuic", "startup": "OsStartup", "reregister": "OsReRegister", "connect": "OsConnect"}
+RT_WHO = {"quic": "RQuic", "direct": "RDirect", "via": "RVia"}
+RT_END = (b"\x41" + b"c20rt-end-of-stream-marker").hex()
+RT_ATTEMPT = "c20rt-attempt"
+
+
+def rt_is_stun(c, h, kinds):
+    """classification by construction: the stream's own kinds; anything else that is STUN is an answer of a harness STUN server"""
+    if h in kinds:
+        return kinds[h] == "stun"
+    b = bytes.fromhex(h)
+    return len(b) == 32 and b[:2] == b"\x01\x01" and py_stun_hdr_ok(b) and b[20:22] == b"\x00\x20"
+
+
+def rt_log(c, o):
+    """the raw-socket log as one sequence: [(tag, ...)], with the hand-over placed before the first entry made while serving.
+    Punch packets of the attempt the runtime registers itself (either fate is fine) are left out."""
+    kinds = {d["hex"]: d["kind"] for d in c["dg"]}
+    dont = set(c.get("rtpunch") or [])
+    dls = list(o.get("dls") or [])
+    out, served, di = [], False, 0
+
+    def serve(flag):
+        nonlocal served
+        if flag and not served:
+            served = True
+            out.append(("serve",))
+
+    def flush(upto):
+        nonlocal di
+        while di < len(dls) and dls[di]["at"] <= upto:
+            d = dls[di]
+            serve(d["serving"])
+            out.append(("dl", d["who"], d["site"], not d["zero"]))
+            di += 1
+
+    for ri, r in enumerate(o.get("reads") or []):
+        flush(ri)
+        serve(r["serving"])
+        if r.get("err"):
+            if r["err"] == "timeout":
+                out.append(("err", r["who"]))
+            continue
+        if r["hex"] in dont:
+            continue
+        out.append(("read", r["who"], r["site"], r["hex"], r["port"], rt_is_stun(c, r["hex"], kinds)))
+    flush(10 ** 9)
+    serve(True)
+    return out
+
+
+def rt_to_coq(c, o):
+    if o.get("skip") or o.get("panic") or "reads" not in o:
+        return None
+    log = rt_log(c, o)
+    dont = set(c.get("rtpunch") or [])
+    terms = []
+    for e in log:
+        if e[0] == "serve":
+            terms.append("LServe")
+        elif e[0] == "dl":
+            terms.append("LDeadline %s %s %s" % (RT_WHO.get(e[1], "RVia"), RT_SITE.get(e[2], "OsOther"), "true" if e[3] else "false"))
+        elif e[0] == "err":
+            terms.append("LErr %s" % RT_WHO.get(e[1], "RVia"))
+        else:
+            terms.append("LRead %s %s %s (%d)%%Z %s" % (RT_WHO.get(e[1], "RVia"), RT_SITE.get(e[2], "OsOther"), cb(bytes.fromhex(e[3])),
+                                                      e[4], "true" if e[5] else "false"))
+    # what the QUIC side received, as positions in the log
+    idx, p = [], 0
+    for g in o.get("got") or []:
+        if g in dont:
+            continue
+        q = p
+        while q < len(log) and not (log[q][0] == "read" and log[q][1] == "quic" and log[q][3] == g):
+            q += 1
+        if q < len(log):
+            idx.append(q)
+            p = q + 1
+        else:
+            idx.append(10 ** 6)
+    return "CRt %s %s %s %s" % (cstr(RT_ATTEMPT), meta_term(c["meta"][0], c["meta"][1]), lst(terms), lst(str(i) for i in idx))
+
+
+def py_rt_verdict(c, o):
+    """independent recomputation of the runtime-stage verdict from the raw lists"""
+    if o.get("skip") or "got" not in o:
+        return None
+    skip = set(c.get("early") or []) | set(c.get("rtpunch") or []) | {RT_END}
+    want = [d["hex"] for d in c["dg"][:o["nsent"]] if d["kind"] not in ("stun", "punch")]
+    have = [g for g in o["got"] if g not in skip]
+    if have != want:
+        bad = next((i for i, (a, b) in enumerate(zip(have, want)) if a != b), min(len(have), len(want)))
+        return ("python: the QUIC-side reader received %d datagrams, %d datagrams that are neither STUN nor punch packets of a registered attempt "
+                "were sent while it was serving; first difference at position %d" % (len(have), len(want), bad))
+    if o.get("qerrs"):
+        return "python: the QUIC-side ReadFrom failed (%s) although nobody closed the socket" % o["qerrs"][0]
+    if RT_END not in o["got"]:
+        return "python: the end-of-stream marker never reached the QUIC-side reader"
     return None
 
 
@@ -940,6 +1222,8 @@ def py_verdict(c, o):
         return None
     if k == "server":
         return py_server_verdict(c, o)
+    if k == "rt":
+        return py_rt_verdict(c, o)
     return None
 
 
@@ -1035,12 +1319,35 @@ def klass(c, o):
         return "dec:%s:%s" % (c.get("cls"), "ok" if "ty" in o else o.get("err"))
     if k == "demux":
         return "demux"
+    if k == "rt":
+        return "rt:%s%s" % (c.get("name"), ":skipped" if o.get("skip") else "")
     return k
+
+
+def rt_hist(c, o, h):
+    if o.get("skip") or "reads" not in o:
+        return
+    kinds = {d["hex"]: d["kind"] for d in c["dg"]}
+    got = set(o.get("got") or [])
+    for r in o["reads"]:
+        key = "rt:socket-read:%s:%s:%s%s" % (r["who"], r["site"], "serving" if r["serving"] else "startup", ":" + r["err"] if r.get("err") else "")
+        h[key] = h.get(key, 0) + 1
+    for d in o.get("dls") or []:
+        key = "rt:socket-deadline:%s:%s:%s:%s" % (d["who"], d["site"], "serving" if d["serving"] else "startup", "clear" if d["zero"] else "arm")
+        h[key] = h.get(key, 0) + 1
+    for d in c["dg"][:o.get("nsent", 0)]:
+        key = "rt:dg:%s->%s" % (d["kind"], "quic" if d["hex"] in got else "withheld")
+        h[key] = h.get(key, 0) + 1
+    for key in ("sessions", "regcalls", "stunserving", "connects", "heartbeats"):
+        h["rt:total-" + key] = h.get("rt:total-" + key, 0) + int(o.get(key) or 0)
 
 
 def pkt_hist(cases, outs):
     h = {}
     for c, o in zip(cases, outs):
+        if c["k"] == "rt":
+            rt_hist(c, o, h)
+            continue
         if c["k"] not in ("demux", "server") or "ops" not in o or len(o["ops"]) != len(c["ops"]):
             continue
         stopped = waiting = False
@@ -1105,6 +1412,9 @@ def nontrivial(c, o):
         return any(oo.get("evs") or oo.get("res") == "ok" for oo in o["ops"])
     if k == "conc":
         return any(o.get("passed", [])) and any(o.get("evid", []))
+    if k == "rt":
+        # a STUN discovery ran while QUIC was serving (re-registration or stale cache) with traffic flowing
+        return not o.get("skip") and o.get("stunserving", 0) >= 1 and o.get("nhave", 0) >= 20
     return False
 
 
@@ -1143,6 +1453,10 @@ def search(ctx, disagreeing):
         found = violations_of(cases, outs)
         if found:
             break
+    if not found:
+        cases = gen_rt(random.Random(ctx.seed * 1000 + 99), "quick")
+        ok, outs, _, log = common.run_go_cases(ctx, GO_RT, cases, tag="searchrt")
+        found = violations_of(cases, outs)
     return found
 
 
@@ -1212,6 +1526,14 @@ def run(ctx):
     rng = random.Random(ctx.seed)
     cases = gen(rng, ctx.tier)
     violations = []
+    # the runtime stage (app/cmd) runs next to the main stage: other module, other package
+    import threading
+    rt_cases = gen_rt(random.Random(ctx.seed * 7919 + 20), ctx.tier)
+    rt_res = {}
+    rt_t0 = time.time()
+    rt_thread = threading.Thread(target=lambda: rt_res.update(r=common.run_go_cases(ctx, GO_RT, rt_cases, tag="rt", timeout=1200),
+                                                               wall=time.time() - rt_t0))
+    rt_thread.start()
     ok, outs, params, golog = common.run_go_cases(ctx, GO, cases)
     if not ok:
         ctx.say("Go harness failed:\n" + golog[-3000:])
@@ -1243,6 +1565,25 @@ def run(ctx):
             violations += violations_of(ccases, couts)
             conc_info = {"concurrent_histories": len(ccases), "linearised_and_replayed_in_model": nlin,
                          "concurrent_nontrivial": sum(1 for cc, co in zip(ccases, couts) if nontrivial(cc, co))}
+    rt_thread.join()
+    rok, routs, _, rlog = rt_res.get("r") or (False, [], None, "runtime stage did not run")
+    rt_info = {}
+    if not rok:
+        ctx.say("runtime stage (app/cmd) failed:\n" + rlog[-3000:])
+        violations.append({"what": "tie broken: the Go harness for the realm server runtime (app/cmd) did not build/run against the current tree (%s)" % rlog.strip()[-400:],
+                           "replay": {"broken": "go harness app/cmd", "log": rlog[-4000:]}, "found_input": False, "fingerprint": None})
+    else:
+        nskip = sum(1 for o in routs if o.get("skip"))
+        ctx.say("runtime stage (app/cmd): %d histories, %d skipped, %.1fs" % (len(rt_cases), nskip, rt_res.get("wall", 0)))
+        rt_info = {"runtime_histories": len(rt_cases), "runtime_histories_skipped": nskip,
+                   "runtime_histories_nontrivial": sum(1 for c_, o_ in zip(rt_cases, routs) if nontrivial(c_, o_))}
+        if nskip * 2 > len(rt_cases):
+            why = next((o.get("skip") for o in routs if o.get("skip")), "")
+            violations.append({"what": "tie broken: more than half of the realm server runtime histories could not be started (%s)" % why,
+                               "replay": {"broken": "go harness app/cmd", "skips": [o.get("skip") for o in routs]}, "found_input": False, "fingerprint": None})
+        if outs or not cases:
+            cases = cases + rt_cases
+            outs = outs + routs
     if params is not None:
         if common.write_params(PARAMS_NAME, [tuple(p) for p in params]):
             ctx.say("Params changed -> rebuilding dependants")
@@ -1304,6 +1645,7 @@ def run(ctx):
     cov = {"evaluations": len(cases), "distinct_nontrivial": len(nontriv), "rule": RULE, "samples": samples,
            "traces_validated_against_impl": compared, "model_impl_disagreements": len(mism), "input_classes": hist}
     cov.update(conc_info)
+    cov.update(rt_info)
     return common.finish(ctx, pinfo, cov, violations, ASSUMPTIONS, trusted_extra=TRUSTED)
 
 
@@ -1313,7 +1655,7 @@ def replay(ctx, path):
     if not c:
         print("replay file names a broken obligation/correspondence, no concrete input:", r["what"])
         return 1
-    ok, outs, _, log = common.run_go_cases(ctx, GO, [c], tag="replay", race=(c.get("k") == "conc"))
+    ok, outs, _, log = common.run_go_cases(ctx, GO_RT if c.get("k") == "rt" else GO, [c], tag="replay", race=(c.get("k") == "conc"))
     print(json.dumps(outs, indent=1))
     if not outs:
         print(log[-2000:])
@@ -1335,7 +1677,12 @@ LEVEL_TEXT = ("Machine-checked Coq theorems over a statement-by-statement Gallin
               "is a STUN binding response or decodes under a currently registered attempt (from a usable UDP source), otherwise it is returned "
               "unchanged with its address; encode/decode round trip for both types and every padding length <= 1024; nothing outside 33..1057 "
               "bytes decodes; any single-bit flip in magic/type/nonce breaks decoding; decoding under other metadata forces a mask "
-              "coincidence (stated); never panics. Proved for an arbitrary hash and instantiated with an in-kernel FIPS 180-4 SHA-256. "
+              "coincidence (stated); never panics. Socket ownership (model/C20_Owner.v: receive queue, readers, the shared read deadline, the two phases of the "
+              "server runtime of app/cmd/server.go and which discovery each of its sites runs): in every history in which QUIC is the only reader every datagram "
+              "that leaves the socket and is neither STUN nor decodable under any attempt ever registered is returned to QUIC exactly once and in order, nothing goes "
+              "elsewhere and no QUIC-side read fails; the runtime as written has QUIC as its only reader once it serves, for every well-formed history (startup "
+              "discovery, hand-over, any number of session losses / re-registrations / per-connect refreshes); refuted (with witnesses) for two readers, for a "
+              "deadline armed by another party, and for the runtime with the re-registration refresh run on the socket itself. Proved for an arbitrary hash and instantiated with an in-kernel FIPS 180-4 SHA-256. "
               "Tied to /repo on every run by regenerated constants and a differential run against the model (vm_compute) plus an independent hashlib reference.")
 LEVEL_NOTE = ("Trusted: Coq kernel + vm_compute; hand-written model (tie = sampled differential testing + regenerated Params); python/Go glue. "
               "No axioms. Not proved: pion/stun's decoder (oracle; necessary header condition checked at run time), SHA-256 collision "
